@@ -54,7 +54,7 @@ class _Conv:
     def rows(self, prev, node, g: str):
         """The model derives `comment.start_point.row == prev.end_point.row` from the gap (no line
         break in it); check that against the positions tree-sitter reports."""
-        if prev is not None and (node.start_point.row == prev.end_point.row) != ("\n" not in g):
+        if prev is not None and (node.start_point[0] == prev.end_point[0]) != ("\n" not in g):
             raise ContractBroken(f"row equality is not `no line break in the gap`: {g!r}")
 
     # ------------------------------------------------------------------ tree form
